@@ -79,6 +79,10 @@ pub struct Inputs {
 }
 
 pub fn inputs(kind: &str, tier: Tier) -> Inputs {
+    inputs_seq(kind, tier, 3)
+}
+
+pub fn inputs_seq(kind: &str, tier: Tier, seq_len: usize) -> Inputs {
     let corpus = dedup_docs(corpus(kind));
     let mut nb = Vec::new();
     for d in &corpus {
@@ -87,7 +91,7 @@ pub fn inputs(kind: &str, tier: Tier) -> Inputs {
         }
         nb.extend(single_edit_neighbours(d, &MARKERS));
     }
-    let sequences = dedup_docs(token_sequences(&tokens(kind), tier.pick(3, 3)));
+    let sequences = dedup_docs(token_sequences(&tokens(kind), seq_len));
     Inputs { corpus, neighbours: dedup_docs(nb), sequences }
 }
 
